@@ -31,6 +31,20 @@ BUILT = {
             "Complete over the enumerated sub-domains, sampled beyond.",
             "Trusts the scanner (self-tested on hand-written fixtures on every run); lexer exceptions are C05's.",
             "§4.10, §3.4"),
+    "C12": ("metamorphic testing: respelling (digraph/trigraph) and line-splice insertion on generated programs, lexeme soups and all operator pairs; token-sequence equality oracle",
+            "For generated files and soups any subset of punctuators is respelled and any subset of lexeme boundaries receives a splice; the (type, value) token sequence must not change, "
+            "all adjacent/separated operator pairs are enumerated for longest-match, and brace/bracket respelling must leave (level, code, line) of the analysis unchanged.",
+            "The base tokenisation is the reference (its correctness is C09-C11's business).", "§4.12"),
+    "C17": ("metamorphic testing on generated programs: same-width replacement of comment / literal interiors with code-like text",
+            "Comment and literal interiors of generated conforming and violating files are replaced by code-like text of the same width; diagnostics must be identical including columns and order.",
+            "Replacement alphabet excludes delimiters, backslash, tab, newline and '??' as the property states.", "§4.17"),
+    "C18": ("metamorphic testing on generated programs: consistent class- and length-preserving identifier renaming, biased towards fragments of special words",
+            "All user identifiers of generated conforming and violating files are renamed injectively within their naming class; diagnostics must be identical. "
+            "Renamings are aimed at fragments of words the tool may treat specially and naming-rule violations are over-sampled, because spelling-dependent bugs live in a tiny region.",
+            "Names the tool documents as special are never renamed.", "§4.18"),
+    "C19": ("metamorphic testing on generated programs: header prepend, comment insertion at every top-level gap, function append; exact shift relation",
+            "Three unrelated-text edits on generated conforming and violating files; the diagnostics must shift exactly (R1 +12 lines minus INVALID_HEADER, R2 +1 after the insertion point, R3 unchanged).",
+            "Only top-level insertion points, as the property states.", "§4.19"),
 }
 
 NOT_YET = "check not built yet in this round (work in progress, see DESIGN.md §8)"
